@@ -1,9 +1,10 @@
-SPECIFICATION MCSpec
+SPECIFICATION MCSpecX
 CONSTANTS
   Recs = {1, 2}
   Obs = {1}
   Vals = {0, 1}
   MaxDepth = 8
+  Extra = {}
   Dev = "copyshare"
 VIEW MCView
 CONSTRAINT Depth
